@@ -958,8 +958,9 @@ class DataFrameGroupBy(BaseGroupBy):
             return SeriesGroupBy(subset, grouper=self._grouper)
         else:
             # Multiple columns - return DataFrameGroupBy with subset
+            # (the selected columns only, so that iteration yields them as well)
             return DataFrameGroupBy(
-                self._obj,
+                self._obj[key],
                 grouper=self._grouper,
                 value_columns=key,
             )
